@@ -124,6 +124,7 @@ structure FrameR (σ : Sh) (i : Nat) (fs ft : Frame) : Prop where
   cacheKey : fs.cacheKey = ft.cacheKey
   function : fs.function = ft.function.map (renFn σ)
   counters : σ.n0 ≤ i → fs.getMiss = ft.getMiss ∧ fs.cantCache = ft.cantCache ∧ fs.numSet = ft.numSet
+  localFunc : fs.localFunc = ft.localFunc
 
 /-- the "same closure" test of `NewFunctionEnvironment` (repo fix 0558004: same text AND same defining environment) is
 invariant under the renaming: the shift of frame indices is injective -/
